@@ -136,7 +136,14 @@ class Number(Element):
         )
 
     def set_value_from_message(self, msg):
-        self.set_value(values.str_to_num(msg.value, self._definition.format))
+        try:
+            value = values.str_to_num(msg.value, self._definition.format)
+        except ValueError:
+            value = None
+        if value is None:
+            logger.warning("Number %s: no parsable value, ignored", self.name)
+            return
+        self.set_value(value)
 
 
 class Text(Element):
